@@ -34,7 +34,10 @@ import (
 //               Observation {id, ctx, url}; ctx -1 = the document does not build, -2 = it builds but
 //               contains no Show node (the lexer did not lex the hole), -3 = host panic.
 //               (-mode ctxall: the same for a hole at every fragment boundary i = 0..n of the
-//               document, observation {id, frags, ctx: [...], url: [...]}.)
+//               document, observation {id, frags, ctx: [...], url: [...]}; -mode ctxat: the same for the
+//               hole at boundary "hole" of the case, observation {id, ctx, url}.)
+//               Only the show of the hole is read: a document may contain other show statements
+//               (`{% show itea; using %}`, `{{ N() }}`), which show something else than x.
 //   -mode conf  case {id, frags, hole, via, pt}: the document with a show at boundary `hole` is
 //               rendered with every value of the dictionary below (and with the benign value of the
 //               same Go type and shape).  via selects how the value reaches the hole: "direct"
@@ -48,7 +51,7 @@ import (
 //               "holes" / "after": boundaries of further shows `{{ y }}` of the same document before / after
 //               the hole, y a string variable whose value is always the benign "x" (several shows on one
 //               renderer; only the show at "hole" receives the dictionary).  "vset": "attr" renders only the part of the dictionary
-//               that matters for attribute values (default: all of it).
+//               that matters for attribute values, "block" a part that breaks every format of a body (default: all of it).
 //               For a Markdown file every output is also converted by goldmark (plain CommonMark, raw HTML
 //               kept: html.WithUnsafe) and the conversion is logged as "html": the Trace specification
 //               compares the structure of the conversions.
@@ -58,7 +61,7 @@ import (
 //
 // The TLA+ Trace specifications tokenise the documents and the rendered outputs and judge.
 
-var mode = flag.String("mode", "ctx", "ctx | conf")
+var mode = flag.String("mode", "ctx", "ctx | ctxall | ctxat | conf")
 
 // ---- the context-breaking dictionary ---------------------------------------------------------------
 
@@ -151,7 +154,7 @@ type kase struct {
 	Hole  int             `json:"hole"`
 	Holes []int           `json:"holes"` // further shows `{{ y }}` (y is always "x") before the hole: their boundaries (<= hole)
 	After []int           `json:"after"` // further shows `{{ y }}` after the hole: their boundaries (>= hole)
-	Vset  string          `json:"vset"`  // "" = the whole dictionary, "attr" = attrSet
+	Vset  string          `json:"vset"`  // "" = the whole dictionary, "attr" = attrSet, "block" = blockSet
 	Via   string          `json:"via"`
 	PT    json.RawMessage `json:"pt"`
 }
@@ -199,6 +202,29 @@ func init() {
 		"benign:int", "int", "benign:html", "html"} {
 		attrSet[c] = true
 	}
+}
+
+// blockSet: the classes rendered when a case says "vset": "block" (a show in or behind the body of a macro or
+// using statement): values that leave the slot when they are escaped for another format than the slot's
+var blockSet = map[string]bool{}
+
+func init() {
+	for _, c := range []string{"benign:string", "dq", "sq", "lt", "amp", "space", "semi", "bslash", "nl", "endscript", "endstyle", "tagbreak",
+		"jsbreak", "jsbreak2", "cssbreak", "word", "mdemph", "mdhtml", "mdnlheading", "benign:int", "int", "benign:strings", "strings", "strings2",
+		"benign:mapval", "mapval", "benign:html", "html", "benign:js", "js"} {
+		blockSet[c] = true
+	}
+}
+
+// inVset reports whether the value class is rendered for the value set of a case
+func inVset(vset, class string) bool {
+	switch vset {
+	case "attr":
+		return attrSet[class]
+	case "block":
+		return blockSet[class]
+	}
+	return true
 }
 
 // goldmark as a plain CommonMark converter that keeps raw HTML
@@ -277,8 +303,13 @@ func (v *showVisitor) Visit(n ast.Node) astutil.Visitor {
 		v.url = append(v.url, w.url...)
 		return nil
 	case *ast.Show:
-		v.ctx = append(v.ctx, int(n.Context))
-		v.url = append(v.url, v.inURL)
+		// the show of the hole is `{{ x }}`
+		if len(n.Expressions) == 1 {
+			if id, ok := n.Expressions[0].(*ast.Identifier); ok && id.Name == "x" {
+				v.ctx = append(v.ctx, int(n.Context))
+				v.url = append(v.url, v.inURL)
+			}
+		}
 	}
 	return v
 }
@@ -332,6 +363,12 @@ func ctxEnd(k *kase) []any {
 	return nil
 }
 
+// ctxAt: the hole at boundary k.Hole (mode ctxat)
+func ctxAt(k *kase) []any {
+	c, u := contextAt(k, k.Hole)
+	return []any{map[string]any{"id": k.ID, "ctx": c, "url": u}}
+}
+
 func ctxObs(k *kase) []any {
 	n := len(k.Frags)
 	ctx := make([]int, n+1)
@@ -382,7 +419,7 @@ func confObs(k *kase) []any {
 	pos := make([]int, len(dict))
 	n := 0
 	for i, e := range dict {
-		if k.Vset == "attr" && !attrSet[e.class] {
+		if !inVset(k.Vset, e.class) {
 			continue
 		}
 		n++
@@ -474,6 +511,8 @@ func main() {
 				return confObs(&k)
 			case "ctxall":
 				return ctxObs(&k)
+			case "ctxat":
+				return ctxAt(&k)
 			}
 			return ctxEnd(&k)
 		},
